@@ -90,7 +90,7 @@ def make_case(unit):
         _sort_by_residuals(g, facets, transforms)
     spec = sim.CubeSpec(facets, g.weights(N, wmode), ())
     return {"template": template, "spec": sim.spec_to_dict(spec), "transforms": transforms,
-            "ins": ins, "mode": mode}
+            "ins": ins, "mode": mode, "mask_size": cases.mask_size_for(ID, i)}
 
 
 def _hide_all_but_one(g, facets, transforms):
@@ -253,6 +253,7 @@ def _slice(res, L, t, part):
     any_finite = False
     bad = None
     zero_var_bad = None
+    ambiguous = False
     slacks = {}
     for i, r in enumerate(V.rows):
         for j, c in enumerate(V.cols):
@@ -269,6 +270,13 @@ def _slice(res, L, t, part):
             e = Fraction(rb) * Fraction(cb) / Fraction(tb)
             var = e * (1 - Fraction(rb) / Fraction(tb)) * (1 - Fraction(cb) / Fraction(tb))
             near = abs(tb - rb) <= 1e-9 * abs(tb) or abs(tb - cb) <= 1e-9 * abs(tb)
+            if var > 0 and (abs(tb - rb) <= 4e-12 * abs(tb) or abs(tb - cb) <= 4e-12 * abs(tb)):
+                # a vector within a few 1e-12 of its table base: what ordinary float sums of
+                # the same respondents differ by; "whole table" (NaN) and "not quite" (a
+                # number) are both accepted, the cell is not judged
+                res.skipped["vector_within_rounding_of_table_base"] += 1
+                ambiguous = True
+                continue
             if var > 0 and near and exact_sums:
                 # weights of very different magnitude whose sums are exact: a row holding
                 # all but 1e-11 of the table is not the whole table, its residual is defined
@@ -300,7 +308,7 @@ def _slice(res, L, t, part):
         cnt = np.array(counts, dtype=float)
         tot = cnt.sum()
         e = np.outer(cnt.sum(1), cnt.sum(0)) / tot
-        if np.all(e > 0):
+        if np.all(e > 0) and not ambiguous:
             fc = [[Fraction(float(x)) for x in row] for row in counts]
             ft = sum(sum(row) for row in fc)
             fe = [[sum(fc[a]) * (fc[0][b] + fc[1][b]) / ft for b in (0, 1)] for a in (0, 1)]
